@@ -7,4 +7,10 @@ CHECKS = {
   "text": "Generated (angle, axis, vector) triples are compared component-wise with an independent closed-form Rodrigues rotation; the measure-zero families where axis components are exactly zero (the code's case split) are enumerated with all sign patterns, magnitudes and axis scales, so the only way to miss a defect is a case split at a non-zero value the generator does not hit.",
   "note": "Trusts vlib/refs.py:rodrigues (12 lines) and a relative tolerance of 1e-6 (implementation is accurate to ~1e-8 for ill-conditioned axes). No absence proof: floats are sampled.",
  },
+ "C19": {
+  "level": "exploration",
+  "technique": "exhaustive enumeration of valid field values (width 1-4 always, width 5 in the thorough tier) against a reference encoder + exhaustive/Hypothesis-generated malformed strings against an independent classifier",
+  "text": "Round trip decode(ref_encode(n)) == n for every representable integer of width 1-4 (2.5M values, exhaustive) and width 5 (87.5M values: exhaustive in the thorough tier, 2.2M values around every segment boundary in the quick tier), bare and blank-padded; malformed strings exhaustively to width 3 over a reduced alphabet and sampled to width 5 must raise ValueError; well-formed strings are compared with a reference decoder.",
+  "note": "Trusts vlib/refs.py hy36_encode/hy36_classify/hy36_decode_ref (written from the format description). Sign + letter form and non-blank whitespace padding are not classified. Width-5 coverage is exhaustive only in the thorough tier.",
+ },
 }
